@@ -123,23 +123,25 @@ impl Case {
 pub struct Cell {
     pub body: Vec<Vec<i64>>,
     pub mask: Vec<Vec<i64>>,
+    /// whole limbs by which this cell's precision k exceeds the case's k (sub-keys of a bundle with their own layouts)
+    pub extra: usize,
 }
 
 fn cell_of_glwe<D: DataRef>(v: &VecZnx<D>) -> Cell {
     let body = (0..v.size()).map(|j| v.at(0, j).to_vec()).collect();
     let mask = (0..v.size()).map(|j| (1..v.cols()).flat_map(|c| v.at(c, j).iter().copied()).collect()).collect();
-    Cell { body, mask }
+    Cell { body, mask, extra: 0 }
 }
 
 fn cell_all_body<D: DataRef>(v: &VecZnx<D>) -> Cell {
     let body = (0..v.size()).map(|j| (0..v.cols()).flat_map(|c| v.at(c, j).iter().copied()).collect()).collect();
-    Cell { body, mask: (0..v.size()).map(|_| vec![]).collect() }
+    Cell { body, mask: (0..v.size()).map(|_| vec![]).collect(), extra: 0 }
 }
 
 fn cell_of_lwe<D: DataRef>(v: &VecZnx<D>) -> Cell {
     let body = (0..v.size()).map(|j| vec![v.at(0, j)[0]]).collect();
     let mask = (0..v.size()).map(|j| v.at(0, j)[1..].to_vec()).collect();
-    Cell { body, mask }
+    Cell { body, mask, extra: 0 }
 }
 
 fn cells_of_gglwe<K: GGLWEToRef + GGLWEInfos>(k: &K) -> Vec<Cell> {
@@ -311,10 +313,13 @@ fn build<B: FullBackend>(m: &Module<B>, c: &Case, s: &Seeds, scratch: &mut Scrat
         }
         _ => {
             let brk = BlindRotationKeyLayout { n_glwe: nd, n_lwe: Degree(n_lwe as u32), base2k: bb, k: kk, dnum, rank };
-            let atk = GLWEAutomorphismKeyLayout { n: nd, base2k: bb, k: kk, rank, dnum, dsize: Dsize(1) };
-            let tsk = GGLWEToGGSWKeyLayout { n: nd, base2k: bb, k: kk, rank, dnum, dsize: Dsize(1) };
+            // the three sub-keys have their own precision (one / two limbs more): each must get its own noise parameters
+            let (k_atk, k_tsk) = (k + b, k + 2 * b);
+            let atk = GLWEAutomorphismKeyLayout { n: nd, base2k: bb, k: TorusPrecision(k_atk as u32), rank, dnum, dsize: Dsize(1) };
+            let tsk = GGLWEToGGSWKeyLayout { n: nd, base2k: bb, k: TorusPrecision(k_tsk as u32), rank, dnum, dsize: Dsize(1) };
             let lay = CircuitBootstrappingKeyLayout { brk_layout: brk, atk_layout: atk, tsk_layout: tsk };
-            let enc = CircuitBootstrappingEncryptionInfos { brk: ni, atk: ni, tsk: ni };
+            let (sg, bd) = NOISES[c.noise as usize];
+            let enc = CircuitBootstrappingEncryptionInfos { brk: ni, atk: NoiseInfos::new(k_atk, sg, bd).unwrap(), tsk: NoiseInfos::new(k_tsk, sg, bd).unwrap() };
             let mut key = CircuitBootstrappingKey::<Vec<u8>, CGGI>::alloc_from_infos(&lay);
             key.encrypt_sk(m, &lwe_sk(3, true), &sk, &enc, &mut xe, &mut xa, scratch.borrow());
             key.write_to(&mut bytes).unwrap();
@@ -329,13 +334,19 @@ fn build<B: FullBackend>(m: &Module<B>, c: &Case, s: &Seeds, scratch: &mut Scrat
                 cur = &cur[8..];
                 let mut a = GLWEAutomorphismKey::alloc_from_infos(&atk);
                 a.read_from(&mut cur).unwrap();
-                cells.extend(cells_of_gglwe(&a));
+                cells.extend(cells_of_gglwe(&a).into_iter().map(|mut x| {
+                    x.extra = 1;
+                    x
+                }));
             }
             let mut t = GGLWEToGGSWKey::alloc_from_infos(&tsk);
             t.read_from(&mut cur).unwrap();
             assert!(cur.is_empty());
             for i in 0..c.rank as usize {
-                cells.extend(cells_of_gglwe(t.at(i)));
+                cells.extend(cells_of_gglwe(t.at(i)).into_iter().map(|mut x| {
+                    x.extra = 2;
+                    x
+                }));
             }
             cells
         }
@@ -366,6 +377,18 @@ fn run<B: FullBackend>(m: &Module<B>, c: &Case, thorough: bool) -> Verdict {
         let s0 = Seeds { sk: c.seed_sk, xa: c.seed_xa.wrapping_add(rep * 0x1000_0001), xe: c.seed_xe.wrapping_add(rep * 0x2000_0003), pt: c.seed_pt };
         let o1 = build(m, c, &s0, &mut scratch);
         cells_per_obj = o1.cells.len();
+        if rep == 0 && !pk_enc {
+            use std::collections::HashMap;
+            let mut seen: HashMap<&Vec<i64>, usize> = HashMap::new();
+            for (ci, cell) in o1.cells.iter().enumerate() {
+                if cell.mask.is_empty() || cell.mask[0].len() < 8 {
+                    continue;
+                }
+                if let Some(prev) = seen.insert(&cell.mask[0], ci) {
+                    return fail("mask-reused-across-cells", format!("cells {prev} and {ci} of the same object carry the identical mask (mask stream / seed reused)"));
+                }
+            }
+        }
         if rep == 0 {
             let o1b = build(m, c, &s0, &mut scratch);
             if o1.bytes != o1b.bytes {
@@ -420,6 +443,7 @@ fn run<B: FullBackend>(m: &Module<B>, c: &Case, thorough: bool) -> Verdict {
             for i in 0..len {
                 let diff: Vec<i128> = (0..cell.body.len()).map(|j| cell.body[j][i] as i128 - c2.body[j][i] as i128).collect();
                 let d = torus_err(&Dyadic::from_limbs_i128(&diff, b), &Dyadic::zero());
+                let unit_exp = unit_exp + cell.extra * b;
                 let scaled = Dyadic { num: d.num.clone() << unit_exp, exp: d.exp };
                 let int = &scaled.num >> scaled.exp;
                 if (int.clone() << scaled.exp) != scaled.num {
